@@ -41,7 +41,7 @@ func newMemPair(rdMode int) (*memConn, *memConn) {
 
 var errNoFrame = errors.New("memconn: no frame queued (the harness is sequential: a Read without a preceding frame would block forever)")
 
-func (c *memConn) Close() error                                 { c.closed = true; return nil }
+func (c *memConn) Close() error                                { c.closed = true; return nil }
 func (c *memConn) CloseWithStatus(transport.CloseStatus) error { c.closed = true; return nil }
 func (c *memConn) Ping(context.Context) error                  { return nil }
 
@@ -182,7 +182,7 @@ func runWS(c Case) []V {
 	type dirState struct {
 		pipe   *wsPipe
 		sent   []Msg
-		prior  int // bytes of earlier messages in this direction
+		prior  int    // bytes of earlier messages in this direction
 		dict   []byte // reference window of this direction
 		name   string
 		w, r   *websocket.Transport
